@@ -325,6 +325,30 @@ What the seventh round changed:
   taken from the model output agree. C19.R4 judges the search that is actually run - on every path with a search loop the exit test compares
   the bracket width with the caller's precision, the bracket starts at the caller's bounds, the budget is the caller's `max_iter` - whether
   it is reached through `bisect`, a private `_search` or a generator of brackets (F09-2, F08-1, F10-3).
+* **What only the twins showed** - rules that reported the defective patch for a reason that its repaired twin shares. C07.R5 / C08.R3 read
+  the closed form's arguments off the keyword dict of the call (G08-2 forwards them by position through a `partial`: "log_moneyness not
+  forwarded"; the seed F08-2 had been reported for that reason, not for the missing strike) - they use the arguments by parameter name now.
+  C11.R5 wanted the path generator called from `simulate` itself (G05-2/3: from a hook of a template method); now: one call INTO the
+  generator package per simulation. `torch.full_like(p, 0.0)` had the unit 1 where `zeros_like(p)` fits any unit (G02-2), and the
+  extended-real domain did not know it.
+* **A correctly keyed memo is not state** (G04-2 / F04-2: the time grid remembered on the derivative, keyed by `(n_steps, dt)` in the seed and
+  by `(n_steps, dt, spot.dtype, spot.device)` in the twin). The purity rules (C02.R6, C12.R7, C16.R3: "nothing is stored on a pre-existing
+  object") are a sufficient condition, and the hit path returned "whatever was stored" - five checks reported the twin. `Interp.explore` now
+  recognises the validated-memo idiom by its proof obligation, not by its spelling: a 2-tuple `(key, value)` stored on an object, where
+  `value` is a function of the components of `key` alone (a tensor that only donates dtype / device to `.to()` / `new_*` / `*_like` counts as
+  those two attributes) and every path that uses the stored pair compares its first component with that same key. Then hit = miss: the hit
+  paths are dropped and the store is labelled `memo_store`. The seed's key lacks dtype and device, its value depends on them through
+  `.to(spot)`: not folded, reported as before (C17.R6, C16.R3, C12.R7, C02.R6).
+* **Functions as values in loops**: `reduce(_chain, self.clauses(), _no_clause)` (G04-1 / F04-1) builds a function by composing closures over a
+  sequence of unknown length. The loop machinery carried tensors only and silently kept the closure of the generic iteration: it now fails
+  closed (analysis error) when a function-valued variable is re-bound in such a loop, and a fold of functions is modelled by what it
+  returns when it is called - `v_0 = f0(a)`, `v_k = compose(<function returning v_{k-1}>, x_k)(a)`, provided each composed function calls
+  its predecessor with its own arguments - i.e. as the same value-carrying loop the `for` form gives. C12.R3 accepts the loop form (any
+  number of clauses) or, failing that, the exact nesting for three registered clauses (the seed: `clause1(clause2(clause3(payoff_fn())))`);
+  C01.R4 compares the payoff handed to `pl()` with what `payoff()` returns on the same derivative instead of asking for a loop in it.
+  Nested instances of one inner function are no longer taken for recursion.
+* **Several looping paths** (G09-2: `_n_brackets(max_iter)` distinguishes an infinite budget, clips at 0): C19.R1 judges every looping path of
+  the increasing orientation instead of demanding exactly one.
 * **Terms are DAGs**: a helper that turned a symbolic step count into a concrete one (F05-1) unrolled a simulation loop, and the tree walk over
   the shared sub-terms did not finish within the time limit in four checks; `walk` visits a shared node once, equality short-cuts on identity
   and cached hashes.
@@ -427,7 +451,15 @@ FIRST7 = {   # seed -> what the first run said, where it differs from the final 
     "F09-2": "reported by C19.R1 as 'no single search loop': the form, not the defect",
     "F10-1": "analysis error: anchor BasePrimary.to vanished",
 }
-TWIN_FIRST7 = {}
+TWIN_FIRST7 = {
+    "G02-2": "FALSE ALARM C08.R2 (unit of full_like(p, 0.0)) + analysis error in C18",
+    "G04-1": "FALSE ALARM C01.R4, C12.R3 (the fold written as composed closures)",
+    "G04-2": "FALSE ALARM C02, C12, C16, C17, C19 + analysis errors in C03, C13 (a correctly keyed memo)",
+    "G05-2": "FALSE ALARM C11.R5 (the generator called from a hook of simulate)",
+    "G05-3": "FALSE ALARM C11.R5",
+    "G08-2": "FALSE ALARM C07.R5, C08.R3 (arguments forwarded by position through a partial)",
+    "G09-2": "analysis errors in C06, C19 (several paths that differ in the iteration budget only)",
+}
 
 
 def round7():
@@ -459,7 +491,10 @@ FIRST7_TEXT = ("23 reported by the check of the property the agent named, for th
                "defect (F02-2, F09-2); 1 only by another property's check while its own stopped (F03-2); 3 stopped their own check with an analysis error "
                "(F01-2, F01-3, F10-1); **1 missed by every check** (F08-3, the memoised module factory). Besides, F04-2, F05-1 and F09-2 stopped or timed out "
                "unrelated checks. After the work below all 30 are reported by the check of the property the agent named, each for the defect itself.")
-TWINS7_TEXT = ""
+TWINS7_TEXT = ("; at the first run (with the checks as they stood after the work on the 30 defective patches) 23 were silent, 6 raised a false alarm "
+               "(G02-2, G04-1, G04-2, G05-2, G05-3, G08-2) and 1 ended in analysis errors (G09-2). The agents' repairs went further than undoing the one "
+               "detail: several twins restore exception types, evaluation order, memory layout or the draw order of random numbers that the "
+               "defective refactoring had also changed, so a twin is not simply its seed with one line reverted")
 
 
 if __name__ == "__main__":
